@@ -762,6 +762,8 @@ def _range_sum(it, f, n):
 def np_divide(it, a, b, out=None, where=True):
     def f(x, y, o, w):
         w = it.truth(w) if not isinstance(w, bool) else w
+        if not isinstance(w, bool) and isinstance(o, float) and o in (float("inf"), float("-inf")):
+            w = it.branch(w)  # the default is not a real number: decide the mask on this path (only for concrete-length arrays)
         if isinstance(w, bool):
             if w:
                 return it.num_binop(ast.Div(), x, y)
@@ -894,6 +896,10 @@ def np_exp(it, x):
     if not is_z3(x):
         if x == 0:
             return 1.0
+        if x == float("-inf"):
+            return 0.0
+        if x == float("inf"):
+            return float("inf")
         x = to_real(x)
     t = f(to_real(x))
     it.exp_terms = getattr(it, "exp_terms", [])
